@@ -54,6 +54,10 @@ PROPS = {
         units=['istype'],
         not_covered='pattern matching, switch, destructuring, annotation enforcement on assignment paths, satisfying types',
     ),
+    'C13': dict(
+        units=['seqlib'],
+        not_covered='TBD',
+    ),
     'C10': dict(
         units=['index'], kani='thorough',
         not_covered='index/slice_seq/set_index and the take/drop/... builtins that call these kernels; stream indexing by iteration',
